@@ -59,6 +59,28 @@ func genC15(p *sim.Plan, r *sim.Rand, tier string) {
 	p.Set("max_ms", mx)
 	p.Set("jitter_pct", []int64{0, 30, 50, 100}[r.Intn(4)])
 	p.Set("outage", int64(r.Intn(4))) // 0 refuse, 1 dial-blackhole, 2 crash-restart, 3 flapping
+	p.Set("react_cut_ns", -1)
+	if p.Mode == "proto" && r.Bool(0.25) {
+		// reactive flap: the connection is cut again right when the CONNECT reply of the first
+		// reconnection reaches the client (zero latency: the reply arrives at the instant it is written)
+		p.Set("outage", 0)
+		p.Set("lat_us", 0)
+		p.Set("jit_us", 0)
+		p.Set("react_cut_ns", []int64{0, 1, 100, 10_000, 1_000_000}[r.Intn(5)])
+		p.Stall = DrawStall(r, 100_000_000)
+		p.Stall.Focus = []string{"client_socket.go", "client_manager.go"}
+		p.Stall.SitePct = 100
+		p.Stall.RatePPM = []int{100000, 300000}[r.Intn(2)]
+		p.Stall.MaxNs = []int64{1000, 100_000, 5_000_000}[r.Intn(3)]
+	}
+	if p.Mode == "sio" && r.Bool(0.5) {
+		// the admission of the socket and its connection handlers against the client's buffered events
+		p.Stall = DrawStall(r, 100_000_000)
+		p.Stall.Focus = []string{"namespace.go", "server_socket.go", "server_conn.go", "store.go", "ordered_runner.go"}
+		p.Stall.SitePct = 100
+		p.Stall.RatePPM = []int{100000, 300000}[r.Intn(2)]
+		p.Stall.MaxNs = []int64{100_000, 5_000_000}[r.Intn(2)]
+	}
 	// sum of the back-off delays of the configured attempts (5 if infinite)
 	n := att
 	if n == 0 {
@@ -72,6 +94,14 @@ func genC15(p *sim.Plan, r *sim.Rand, tier string) {
 	length := sum * 1_000_000 * int64(r.Range(2, 30)) / 10
 	if p.C("outage") == 1 {
 		length += 25_000_000_000
+	}
+	if p.C("react_cut_ns") >= 0 {
+		// make sure the scenario is reached: never give up, a short outage, emits made during it
+		p.Set("attempts", 0)
+		length = d * 1_000_000 * int64(r.Range(12, 25)) / 10
+		for k := 0; k < r.Range(2, 4); k++ {
+			p.Ops = append(p.Ops, sim.Op{At: start + r.I64n(length), Actor: 0, Kind: "emit", I: []int64{0, int64(r.Intn(2) * 2)}})
+		}
 	}
 	p.Set("outage_start", start)
 	p.Set("outage_len", length)
@@ -95,6 +125,10 @@ func genC15(p *sim.Plan, r *sim.Rand, tier string) {
 	// emits placed in the connect-pending window: offset after the k-th re-open of the manager
 	for i := 0; i < r.Weighted([]int{3, 2, 1}); i++ {
 		p.Ops = append(p.Ops, sim.Op{At: 1 << 60, Actor: 0, Kind: "emit_on_open", I: []int64{0, int64(r.Intn(3)), int64(r.Range(1, 2)), r.I64n(4_000_000) * int64(r.Intn(2))}})
+	}
+	// emits made before the very first Connect call: buffered, delivered when the socket connects
+	for i := 0; i < r.Weighted([]int{2, 1, 1}); i++ {
+		p.Ops = append(p.Ops, sim.Op{At: -1, Actor: 0, Kind: "emit_early", I: []int64{0, int64(r.Intn(3)), 0, 0}})
 	}
 	sort.SliceStable(p.Ops, func(i, j int) bool { return p.Ops[i].At < p.Ops[j].At })
 	for i := range p.Ops {
@@ -125,6 +159,8 @@ func runC15(e *sim.Env) {
 	// The server is a protocol-level endpoint (the repository's Engine.IO server, a hand-written
 	// Socket.IO layer): arrival order is the order on the wire, not the order in which a
 	// Socket.IO server's per-packet goroutines happen to reach the handlers (that is C02's subject).
+	var onConnectFrame func()
+	outStartT := int64(1 << 62)
 	connectSeen := map[string]bool{} // proto mode: sessions whose CONNECT frame has arrived
 	record := func(name string, id int, g int) {
 		mu.Lock()
@@ -158,6 +194,9 @@ func runC15(e *sim.Env) {
 				mu.Lock()
 				connectSeen[f.Session] = true
 				mu.Unlock()
+				if onConnectFrame != nil {
+					onConnectFrame()
+				}
 			}
 			if !ok || typ != 2 {
 				return
@@ -186,6 +225,60 @@ func runC15(e *sim.Env) {
 	cli := w.NewSioClient(0, "/", world.ClientOpts{Transports: world.Transports(p.C("tr")), UpgradeTimeout: 20 * time.Minute,
 		ReconnectionAttempts: attempts, ReconnectionDelay: &d, ReconnectionDelayMax: &mx, RandomizationFactor: &jit}, nil)
 	var acks []int
+	type em struct {
+		id             int
+		kind           int64
+		inv, ret       int64
+		invSeq, retSeq int
+	}
+	var ems []*em
+	emit := func(op sim.Op) {
+		m := &em{id: int(op.Int(0)), kind: op.Int(1), inv: e.Now()}
+		mu.Lock()
+		ems = append(ems, m)
+		mu.Unlock()
+		var iid int
+		iid, m.invSeq = e.Invoke(0, fmt.Sprintf("emit #%d kind=%d", m.id, m.kind))
+		switch m.kind {
+		case 0:
+			cli.Socket.Emit("plain", m.id)
+		case 1:
+			cli.Socket.Volatile().Emit("volatile", m.id)
+		default:
+			cli.Socket.Emit("ack", m.id, func(id int) { mu.Lock(); acks = append(acks, id); mu.Unlock() })
+		}
+		mu.Lock()
+		m.ret = e.Now()
+		m.retSeq = e.Return(0, iid, "emit")
+		mu.Unlock()
+	}
+	startT := e.Now()
+	for _, op := range p.Ops {
+		if op.Kind == "emit_early" {
+			emit(op)
+		}
+	}
+	reactDone := false
+	onConnectFrame = func() {
+		// (called by the protocol-level server for every CONNECT frame)
+		mu.Lock()
+		skip := p.C("react_cut_ns") < 0 || reactDone || e.Now() < outStartT
+		if !skip {
+			reactDone = true
+		}
+		mu.Unlock()
+		if skip {
+			return
+		}
+		eps := time.Duration(p.C("react_cut_ns"))
+		e.Go(func() {
+			time.Sleep(eps)
+			w.Net.Apply(sim.Fault{Kind: "refuse", Target: "c0*"})
+			w.Net.Apply(sim.Fault{Kind: "cut", Target: "c0*"})
+			time.Sleep(time.Duration(p.C("delay_ms")) * time.Millisecond / 2)
+			w.Net.Apply(sim.Fault{Kind: "heal", Target: "*"})
+		})
+	}
 	cli.Socket.Connect()
 	if !world.WaitUntil(20*time.Second, func() bool { return cli.Socket.Connected() }) {
 		e.Violate("C15/connect-failed", "setup", "no initial connection")
@@ -194,6 +287,9 @@ func runC15(e *sim.Env) {
 	time.Sleep(50 * time.Millisecond)
 	base := e.Now()
 	outStart, outEnd := base+p.C("outage_start"), base+p.C("outage_start")+p.C("outage_len")
+	mu.Lock()
+	outStartT = outStart
+	mu.Unlock()
 	kind := p.C("outage")
 	e.Go(func() {
 		e.SleepUntil(outStart)
@@ -227,33 +323,6 @@ func runC15(e *sim.Env) {
 		}
 		e.Log(0, "healed", "")
 	})
-	type em struct {
-		id             int
-		kind           int64
-		inv, ret       int64
-		invSeq, retSeq int
-	}
-	var ems []*em
-	emit := func(op sim.Op) {
-		m := &em{id: int(op.Int(0)), kind: op.Int(1), inv: e.Now()}
-		mu.Lock()
-		ems = append(ems, m)
-		mu.Unlock()
-		var iid int
-		iid, m.invSeq = e.Invoke(0, fmt.Sprintf("emit #%d kind=%d", m.id, m.kind))
-		switch m.kind {
-		case 0:
-			cli.Socket.Emit("plain", m.id)
-		case 1:
-			cli.Socket.Volatile().Emit("volatile", m.id)
-		default:
-			cli.Socket.Emit("ack", m.id, func(id int) { mu.Lock(); acks = append(acks, id); mu.Unlock() })
-		}
-		mu.Lock()
-		m.ret = e.Now()
-		m.retSeq = e.Return(0, iid, "emit")
-		mu.Unlock()
-	}
 	opens := 0
 	cli.OnLife = func(kind string) {
 		if kind != "open" {
@@ -387,12 +456,13 @@ func runC15(e *sim.Env) {
 	var offline []window      // [disconnect event, next open event]: no Engine.IO connection at all
 	var notConnected []window // [disconnect event, next connect event]: includes the connect-pending part
 	var connected []window
-	var lastDisc, lastDisc2, lastConn int64 = -1, -1, -1
+	// (before the first connection the socket is as good as disconnected since before the run began)
+	var lastDisc, lastDisc2, lastConn int64 = startT - int64(time.Second), startT - int64(time.Second), -1
 	for _, ev := range evs {
 		switch ev.Kind {
 		case "connect":
 			lastConn = ev.At
-			if lastDisc2 >= 0 {
+			if lastDisc2 != -1 {
 				notConnected = append(notConnected, window{lastDisc2, ev.At})
 				lastDisc2 = -1
 			}
@@ -403,7 +473,7 @@ func runC15(e *sim.Env) {
 			}
 			lastDisc, lastDisc2 = ev.At, ev.At
 		case "open":
-			if lastDisc >= 0 {
+			if lastDisc != -1 {
 				offline = append(offline, window{lastDisc, ev.At})
 				lastDisc = -1
 			}
@@ -412,10 +482,10 @@ func runC15(e *sim.Env) {
 	if lastConn >= 0 {
 		connected = append(connected, window{lastConn, 1 << 62})
 	}
-	if lastDisc >= 0 {
+	if lastDisc != -1 {
 		offline = append(offline, window{lastDisc, 1 << 62})
 	}
-	if lastDisc2 >= 0 {
+	if lastDisc2 != -1 {
 		notConnected = append(notConnected, window{lastDisc2, 1 << 62})
 	}
 	in := func(ws []window, m *em, margin int64) int {
